@@ -356,7 +356,11 @@ void op_WHERE_FILL(World& w, const Op& op)
 void op_INSTANTIATION(World& w, const Op& op)
 {
    if (w.substs.empty()) return;
-   auto& e = *World::pick(w.exprs, op.a);
+   // the pattern is any expression; half of the time a mapping (what templates are instantiated from), one of the few most
+   // recent ones, so that one pattern meets several substitutions
+   const Expr* pattern = World::pick(w.exprs, op.a);
+   if (op.e % 2 && !w.mappings.empty()) pattern = w.mappings[w.mappings.size() - 1 - op.a % std::min<std::size_t>(3, w.mappings.size())];
+   auto& e = *pattern;
    auto& s = *World::pick(w.substs, op.b);
    auto x = w.L().make_instantiation(e, s);
    Rec& rec = w.record_node("make_instantiation", *x, Category_code::Instantiation);
